@@ -202,6 +202,19 @@ Theorem C16_submit_busy_leaves_nothing : forall s x s', submit s x = (s', PBusy)
 Proof. exact submit_busy_leaves_nothing. Qed.
 Print Assumptions C16_submit_busy_leaves_nothing.
 
+(** A requester's time-out (recvConfChangeReply) does not free the proposal slot, and over any
+    sequence of requests, completions, takes and time-outs at most one membership change is in
+    flight (accepted and not yet applied): every further request is refused until it is applied. *)
+Theorem C16_timeout_keeps_pending : forall s c x, ps_saved s = Some c -> submit (reply_timeout s) x = (s, PPending).
+Proof. exact timeout_keeps_pending. Qed.
+Print Assumptions C16_timeout_keeps_pending.
+Theorem C16_one_change_in_flight : forall ops cap,
+  let st := fold_left pstep ops (mk_ps None [] cap, []) in
+  (length (snd st) <= 1)%nat /\
+  forall c x, In c (snd st) -> submit (fst st) x = (fst st, PPending).
+Proof. exact one_change_in_flight. Qed.
+Print Assumptions C16_one_change_in_flight.
+
 (** Cluster.Recover(snapshot): applied ids = the snapshot's members, removed ids = the snapshot's
     removed members (both branches), so a removed id is still refused after a restart. *)
 Theorem C16_recover_ids : forall c ms rs id,
